@@ -2,7 +2,7 @@
 C10 — property theorems: bounds lemmas on the index-arithmetic models of `Model/C10.lean`
 (helper lemmas live in `Proofs/C10*.lean`).
 -/
-import Mahotas.Proofs.C10
+import Mahotas.Proofs.C10Loops
 open Mahotas Mahotas.C10
 
 /-! ## general index arithmetic -/
@@ -93,3 +93,78 @@ example : filterIdx .reflect [3] [5] = [1, 0, 0, 1, 2, 0, 0, 1, 2, 2, 0, 1, 2, 2
 example : filterIdx .constant [2, 2] [1, 3] =
     [-1, 0, 1, 0, 1, -1, -1, 2, 3, 2, 3, -1] := by decide
 example : tableOffset .nearest [2, 3] [1, 2] [3, 3] [0, 2] [2, 2] = some 1 := by decide
+
+/-! ## B2 — `fast_binary_dilate_erode_2d` -/
+
+/-- **B2.** For every image size `Ny, Nx ≥ 1`, every row `y ∈ [0,Ny)`, every raw structuring-element
+offset `(dy, dx)` (arbitrary integers: the element may be larger than the image) and both operations
+(erosion gathers, dilation scatters), after the clamp of `dx` to `[-Nx, Nx]` (lines 181-182) and the two
+row clamps (lines 200-203): the row indices `y` and `y+dy` are in `[0,Ny)`, and every column index used
+by the border loop (`out[Nx-i-1]`, `in[Nx-1]`, `out[i]`, `in[0]`, … for `i < |dx|`, including the case
+`|dx| = Nx` where it runs `Nx` times and the main loop not at all) and by the main loop
+(`n = Nx - |dx|` steps from the shifted pointers) is in `[0,Nx)`; both `i != …` loops leave through
+their test. -/
+theorem C10_fastbinary_in_bounds (ny nx y dy dx : Int) (erosion : Bool)
+    (hnx : 0 < nx) (hy0 : 0 ≤ y) (hy1 : y < ny) :
+    (∀ a ∈ fbAccesses ny nx y dy (fbClampDx nx dx) erosion, 0 ≤ a.i ∧ a.i < a.size) ∧
+    fbDone nx (fbClampDx nx dx) = true := by
+  have h := fbClampDx_range nx dx (by omega)
+  exact ⟨fbAccesses_ok ny nx y dy _ erosion hnx hy0 hy1 h.1 h.2, fbDone_ok nx _ hnx h.1 h.2⟩
+
+/-! non-vacuity (B2): the hypotheses are met by a 2x3 image and the offset (-5, 9) (clamped to 3:
+    the border loop runs 3 times, the main loop 0 times); without the clamp the model leaves the row. -/
+example : fbClampDx 3 9 = 3 ∧ (fbAccesses 2 3 0 (-5) (fbClampDx 3 9) true).length = 8 ∧
+    allOk (fbAccesses 2 3 0 (-5) (fbClampDx 3 9) true) = true ∧
+    allOk (fbAccesses 2 3 0 (-5) 9 true) = false := by decide
+
+/-! ## B3 — `convolve1d` fast path, `find2d`, `majority_filter` -/
+
+/-- **B3, convolve1d.** For every row length `N1 ≥ 1`, every number of weights `Nf ≥ 0` with
+`2·(Nf/2) ≤ N1` (this is the weakest condition under which the first loop
+`for (x = centre; x != N1 - centre; ++x)` terminates; the kernel's own guard `centre >= N1` does NOT
+imply it) and every border mode: every column read `base0[(x+j-centre)*step]`, every column written
+through `result.data(y,centre) + (x-centre)`, every column read through `offsets[j]`
+(= `fix_offset(mode, x + (j-centre), N1)`, skipped when it is the flag) and every column written by
+the second loop is in `[0,N1)`; the first loop leaves through its test. The second loop is in
+bounds for every `Nf`, `N1 ≥ 1` (it needs no guard). -/
+theorem C10_convolve1d_in_bounds (m : Mode) (n1 nf : Int) (h1 : 0 < n1) (hf : 0 ≤ nf)
+    (hg : 2 * (nf / 2) ≤ n1) :
+    (∀ a ∈ conv1dAccesses m n1 nf, 0 ≤ a.i ∧ a.i < a.size) ∧ conv1dDone n1 nf = true :=
+  ⟨conv1dAccesses_ok m n1 nf h1 hf hg, conv1dDone_ok n1 nf hf hg⟩
+
+/-- **B3, convolve1d under the guard that exists.** `mahotas.convolve1d` (convolve.py:110) takes the
+fast path only when `len(weights) < f.shape[axis]`, i.e. `Nf < N1`; this implies the condition of
+`C10_convolve1d_in_bounds`. -/
+theorem C10_convolve1d_python_guard (m : Mode) (n1 nf : Int) (hf : 0 ≤ nf) (hg : nf < n1) :
+    (∀ a ∈ conv1dAccesses m n1 nf, 0 ≤ a.i ∧ a.i < a.size) ∧ conv1dDone n1 nf = true :=
+  C10_convolve1d_in_bounds m n1 nf (by omega) hf (by omega)
+
+/-- **B3, the kernel's own guard is not enough** (only reachable by calling `_convolve.convolve1d`
+directly): `N1 = 3`, `Nf = 4` passes `if (centre >= N1) break;` (centre = 2) but `N1 - centre = 1 < 2`,
+so `x != N1 - centre` never becomes false: the model reads column 3 of a row of 3 and runs out of budget. -/
+theorem C10_convolve1d_kernel_guard_insufficient :
+    ¬ ((4 : Int) / 2 ≥ 3) ∧ allOk (conv1dAccesses .reflect 3 4) = false ∧ conv1dDone 3 4 = false := by
+  decide
+
+/-- **B3, find2d.** For every image `N0 × N1` and every template `Nt0 × Nt1` with at least one element per
+axis (larger than the image included: the loops are then empty), with the loop bounds as they are
+(`y < N0 - Nt0`) and with inclusive bounds (`y <= N0 - Nt0`): every `array.at(y+sy, x+sx)`,
+`target.at(sy,sx)` and `out.at(y,x)` has its row index in `[0,N0)` resp. `[0,Nt0)` and its column
+index in `[0,N1)` resp. `[0,Nt1)`. -/
+theorem C10_find2d_in_bounds (n0 n1 t0 t1 : Int) (incl : Bool) (ht0 : 1 ≤ t0) (ht1 : 1 ≤ t1) :
+    ∀ a ∈ find2dAccesses n0 n1 t0 t1 incl, 0 ≤ a.i ∧ a.i < a.size :=
+  find2dAccesses_ok n0 n1 t0 t1 incl ht0 ht1
+
+/-- **B3, majority_filter.** For every image `rows × cols` and every window `N ≥ 0` (the wrapper
+enforces `N > 1`): behind `if (rows < N || cols < N) return;` every `input.at(y+dy, x+dx)` has
+`y+dy ∈ [0,rows)`, `x+dx ∈ [0,cols)`, the flat output index `(y+N/2)*cols + N/2 + x` is in
+`[0, rows*cols)`, and all four `!=` loops leave through their test. -/
+theorem C10_majority_in_bounds (rows cols n : Int) (hn : 0 ≤ n) :
+    (∀ a ∈ majorityAccesses rows cols n, 0 ≤ a.i ∧ a.i < a.size) ∧
+    majorityDone rows cols n = true :=
+  ⟨majorityAccesses_ok rows cols n hn, majorityDone_ok rows cols n hn⟩
+
+/-! non-vacuity (B3): parameters meeting the hypotheses produce accesses; parameters outside do not pass. -/
+example : (conv1dAccesses .mirror 5 4).length = 25 ∧ allOk (conv1dAccesses .mirror 5 4) = true := by decide
+example : (find2dAccesses 3 3 2 2 true).length = 72 ∧ allOk (find2dAccesses 3 3 0 2 true) = false := by decide
+example : (majorityAccesses 4 5 3).length = 38 ∧ allOk (majorityAccesses 2 2 (-1)) = false := by decide
